@@ -548,6 +548,24 @@ def install(eng):
         _fobj(st, args[0])['pos'] = args[1]
         return one(st, args[1])
 
+    @reg('cls:BinaryIO.write')
+    def _f_write(eng, st, args, kw, node):
+        f = _fobj(st, args[0])
+        b = as_view(args[1])
+        data, pos = f['data'], f['pos']
+        # bytes beyond EOF are not modelled: writing happens at or before the end of the data
+        st = eng.fork_exc(st, num_cmp('<=', pos, data.length), 'ValueError', node)
+        if st.dead:
+            return []
+        f = _fobj(st, args[0])
+        end = simp(num_binop('+', pos, b.length, Pending()))
+        nd = v_concat(v_concat(v_slice(data, 0, pos), b), v_slice(data, end, None))
+        nd.ekind = Byte
+        nd.tag = 'bytes'
+        f['data'] = nd
+        f['pos'] = end
+        return one(st, b.length)
+
     @reg('cls:BinaryIO.tell')
     def _f_tell(eng, st, args, kw, node):
         return one(st, _fobj(st, args[0])['pos'])
@@ -682,6 +700,11 @@ def install(eng):
                 continue
             v = vals[vi]
             vi += 1
+            if isinstance(v, Opt):
+                st = eng.fork_exc(st, b_not(v.isnone), 'struct.error', node)
+                if st.dead:
+                    return []
+                v = v.val
             if code == 's':
                 vv = as_view(v)
                 for j in range(n):
